@@ -85,6 +85,89 @@ fn build_n<'src, E: HErr<'src, MappedSlice<'src>>>(
     }
 }
 
+/// `NH` lines: `a.nested_in(b)` available as `call 0` inside `a`, `b` and the main grammar (any position, any depth)
+struct HCase {
+    id: String,
+    gap: usize,
+    mode: ModeK,
+    groups: Vec<(u32, Vec<u32>)>,
+    a: G,
+    b: G,
+    main: G,
+    inputs: Vec<Vec<u32>>,
+}
+
+fn read_hcase(rest: &str) -> Result<HCase, String> {
+    let mut rd = Rd::new(rest);
+    let id = rd.tok()?.to_string();
+    let ek = rd.tok()?;
+    if ek != "rich" {
+        return Err(format!("nested cases are Rich only, got {ek}"));
+    }
+    let gap = rd.nat()? as usize;
+    let mode = match rd.tok()? {
+        "parse" => ModeK::Parse,
+        "check" => ModeK::Check,
+        t => return Err(format!("bad mode {t}")),
+    };
+    let _fuel = rd.nat()?;
+    if rd.tok()? != "T" {
+        return Err("expected T".into());
+    }
+    let ng = rd.nat()?;
+    let mut groups = Vec::new();
+    for _ in 0..ng {
+        let gid = rd.nat()? as u32;
+        let kids = rd.nat_list()?;
+        groups.push((gid, kids));
+    }
+    if rd.tok()? != "A" {
+        return Err("expected A".into());
+    }
+    let a = rd.g()?;
+    if rd.tok()? != "B" {
+        return Err("expected B".into());
+    }
+    let b = rd.g()?;
+    if rd.tok()? != "M" {
+        return Err("expected M".into());
+    }
+    let main = rd.g()?;
+    if rd.tok()? != "I" {
+        return Err("expected I".into());
+    }
+    let inputs = rd.inputs()?;
+    Ok(HCase { id, gap, mode, groups, a, b, main, inputs })
+}
+
+fn run_hcase<'src>(c: &HCase, groups: &'src Groups, data: &'src [(Vec<(char, Sp)>, Sp)], w: &mut dyn Write) {
+    type E<'a> = Rich<'a, char, Sp>;
+    let built = std::panic::catch_unwind(std::panic::AssertUnwindSafe(|| {
+        let mut hole: Rec<'src, MappedSlice<'src>, E<'src>> = chumsky::recursive::Recursive::declare();
+        let cx: Cx<'src, MappedSlice<'src>, E<'src>> = Cx { defs: vec![hole.clone().boxed()], base: 0 };
+        let pa = build(&c.a, &cx);
+        let pb = build(&c.b, &cx).map(move |v: Val| -> MappedSlice<'src> {
+            let t = group_of(&v).expect("harness: nested_in token parser did not yield a token");
+            let (toks, eoi) = groups.get(&t).expect("harness: not a group token");
+            let f: fn(&'src (char, Sp)) -> (&'src char, &'src Sp) = proj_pair;
+            chumsky::input::Input::map(&toks[..], *eoi, f)
+        });
+        hole.define(pa.nested_in(pb));
+        build(&c.main, &cx)
+    }));
+    for k in 0..data.len() {
+        let obs = match &built {
+            Ok(p) => {
+                let f: fn(&'src (char, Sp)) -> (&'src char, &'src Sp) = proj_pair;
+                let inp: MappedSlice<'src> = chumsky::input::Input::map(&data[k].0[..], data[k].1, f);
+                run_one::<MappedSlice<'src>, E<'src>>(p, c.mode, inp)
+            }
+            Err(_) => "P harness-build".to_string(),
+        };
+        let _ = writeln!(w, "{}.{} M {}", c.id, k, obs);
+    }
+}
+
 struct NCase {
     id: String,
     gap: usize,
@@ -160,6 +243,22 @@ pub fn main() {
     let mut w = std::io::BufWriter::new(stdout.lock());
     for line in stdin.lock().lines() {
         let Ok(line) = line else { break };
+        if let Some(rest) = line.strip_prefix("NH ") {
+            match read_hcase(rest) {
+                Err(e) => {
+                    let _ = writeln!(w, "ERR {e} :: {line}");
+                }
+                Ok(c) => {
+                    let mut groups: Groups = HashMap::new();
+                    for (gid, kids) in &c.groups {
+                        groups.entry(*gid).or_insert_with(|| mapped_tokens(kids, c.gap));
+                    }
+                    let data: Vec<(Vec<(char, Sp)>, Sp)> = c.inputs.iter().map(|ts| mapped_tokens(ts, c.gap)).collect();
+                    run_hcase(&c, &groups, &data, &mut w);
+                }
+            }
+            continue;
+        }
         let Some(rest) = line.strip_prefix("NG ") else { continue };
         match read_case(rest) {
             Err(e) => {
